@@ -124,6 +124,10 @@ class Budget(Exception):
     pass
 
 
+class _NotEnumerable(Exception):
+    pass
+
+
 @dataclasses.dataclass
 class Path:
     decisions: list          # [(term, bool)] assumptions made where the oracle did not decide
@@ -241,9 +245,16 @@ class Exec:
         key = T('item', (base, idx))
         if key in self.heap:
             return self.heap[key]
+        if isinstance(base, SList) and base.kind == 'dict' and not base.opaque_tail and isinstance(idx, (str, int, bool, Sym)):
+            for k, v in base.items:
+                if k == idx:
+                    return v
+            raise Raise('KeyError', (idx,))
         if isinstance(idx, int) and not isinstance(idx, bool):
             if isinstance(base, SList) and not base.opaque_tail and -len(base.items) <= idx < len(base.items):
                 return base.items[idx]
+            if isinstance(base, SList) and not base.opaque_tail and not base.tail and base.kind in ('list', 'gen'):
+                raise Raise('IndexError', (idx,))      # a fully enumerated list: the index is out of range
             if isinstance(base, T) and base.op == 'tuple' and -len(base.args) <= idx < len(base.args):
                 return base.args[idx]
         if self.engine.on_item is not None:
@@ -262,7 +273,10 @@ class Exec:
         return SList([self.ev(x, env) for x in e.elts], kind='set')
 
     def e_Dict(self, e, env):
-        return T('dict', tuple((self.ev(k, env) if k is not None else None, self.ev(v, env)) for k, v in zip(e.keys, e.values)))
+        pairs = [(self.ev(k, env) if k is not None else None, self.ev(v, env)) for k, v in zip(e.keys, e.values)]
+        if self.engine.mutable_dicts and all(k is not None and isinstance(k, (str, int, bool, Sym)) for k, _ in pairs):
+            return SList(pairs, kind='dict')
+        return T('dict', tuple(pairs))
 
     def e_JoinedStr(self, e, env):
         parts = []
@@ -382,6 +396,13 @@ class Exec:
             if isinstance(l, conc) and isinstance(r, conc) or (isinstance(l, Sym) and isinstance(r, Sym)):
                 eq = l == r
                 return eq if op == '==' else not eq
+            if isinstance(l, SList) and isinstance(r, SList) and not l.opaque_tail and not r.opaque_tail and \
+                    all(isinstance(x, conc + (Sym,)) for x in l.items + r.items):
+                if l.kind == 'set' or r.kind == 'set':
+                    eq = (l.kind == r.kind or {l.kind, r.kind} <= {'set'}) and set(l.items) == set(r.items)
+                else:
+                    eq = l.items == r.items
+                return eq if op == '==' else not eq
             if l is r or (isinstance(l, T) and l == r):
                 return op == '=='
             return T('cmp', (op, l, r))
@@ -390,6 +411,9 @@ class Exec:
                 return {'<': l < r, '<=': l <= r, '>': l > r, '>=': l >= r}[op]
             return T('cmp', (op, l, r))
         if op in ('in', 'not in'):
+            if isinstance(r, SList) and r.kind == 'dict' and not r.opaque_tail and isinstance(l, conc + (Sym,)):
+                res = any(k == l for k, _ in r.items)
+                return res if op == 'in' else not res
             if isinstance(r, SList) and not r.opaque_tail and all(isinstance(x, conc) for x in r.items) and isinstance(l, conc):
                 res = l in r.items
                 return res if op == 'in' else not res
@@ -404,6 +428,33 @@ class Exec:
         seq = self.ev(gen.iter, env)
         out = SList(kind=kind)
         items = self.iterate(seq)
+        if items is not None and len(e.generators) > 1:
+            # several `for` clauses over enumerated sequences: nested enumeration
+            def rec(gi, env_):
+                g = e.generators[gi]
+                its = self.iterate(self.ev(g.iter, env_))
+                if its is None:
+                    raise _NotEnumerable()
+                for it in its:
+                    env2 = dict(env_)
+                    self.bind(g.target, it, env2)
+                    if not all(self.truth(self.ev(c, env2), c) for c in g.ifs):
+                        continue
+                    if gi + 1 < len(e.generators):
+                        rec(gi + 1, env2)
+                    else:
+                        v = self.ev(elt, env2) if not isinstance(elt, tuple) else tuple(self.ev(x, env2) for x in elt)
+                        if kind == 'dict':
+                            out.items = [x for x in out.items if x[0] != v[0]]
+                        elif kind == 'set' and v in out.items:
+                            continue
+                        out.items.append(v)
+            try:
+                rec(0, env)
+                out.source = seq
+                return out
+            except _NotEnumerable:
+                return T('comp', (ast.unparse(e),))
         if items is not None and len(e.generators) == 1:
             out.source = seq
             for it in items:
@@ -662,6 +713,18 @@ class Exec:
                     return name == 'all'
                 return self.truth(elt, node)
             return T('call', (name, args, ()))
+        if name == 'next' and len(args) in (1, 2) and isinstance(args[0], SList) and not args[0].opaque_tail and args[0].kind != 'dict':
+            if args[0].items:
+                return args[0].items[0]
+            if len(args) == 2:
+                return args[1]
+            raise Raise('StopIteration', ())
+        if name == 'bool' and len(args) == 1:
+            a = args[0]
+            if a is None or isinstance(a, (bool, int, str, Falsy, Sym)) or (isinstance(a, SList) and not a.opaque_tail) or \
+                    (isinstance(a, T) and a.op == 'tuple'):
+                return self.truth(a, node)
+            return T('call', ('bool', args, ()))
         if name in ('str', 'repr', 'int', 'bool') and len(args) == 1 and isinstance(args[0], (str, int, bool)):
             return {'str': str, 'repr': repr, 'int': int, 'bool': bool}[name](args[0])
         return NotImplemented
@@ -694,6 +757,10 @@ class Exec:
             n = SList(lst.items, origin=lst.origin, kind=lst.kind)
             n.opaque_tail = lst.opaque_tail
             return n
+        if lst.kind == 'dict' and not lst.opaque_tail and not args and attr in ('items', 'keys', 'values'):
+            if attr == 'items':
+                return SList([T('tuple', (k, v)) for k, v in lst.items])
+            return SList([k if attr == 'keys' else v for k, v in lst.items])
         if attr == 'get' and lst.kind == 'dict' and not lst.opaque_tail and len(args) in (1, 2) \
                 and isinstance(args[0], (str, int, bool, type(None), Sym)):
             for k, v in lst.items:
@@ -874,6 +941,12 @@ class Exec:
                     self.bind(x.value, T('item', (v, T('rest', (i,)))), env, store_event)
                 else:
                     self.bind(x, items[i] if items is not None else self.unpack(v, i, len(t.elts)), env, store_event)
+        elif isinstance(t, ast.Subscript) and not isinstance(t.slice, ast.Slice) and isinstance(self.ev(t.value, env), SList) \
+                and self.ev(t.value, env).kind == 'dict' and not self.ev(t.value, env).opaque_tail \
+                and isinstance(self.ev(t.slice, env), (str, int, bool, Sym)):
+            d, k = self.ev(t.value, env), self.ev(t.slice, env)
+            d.items = [(a, b) for a, b in d.items if a != k] + [(k, v)]
+            self.events.append(('mutate', d.id, 'setitem', (k,), (('value', v),)))
         elif isinstance(t, (ast.Attribute, ast.Subscript)):
             lv = self.lvalue(t, env)
             self.heap[lv] = v
@@ -896,6 +969,8 @@ class Exec:
 
     def iterate(self, seq):
         """Concrete items when known, else None."""
+        if isinstance(seq, SList) and not seq.opaque_tail and seq.kind == 'dict':
+            return [k for k, _ in seq.items]
         if isinstance(seq, SList) and not seq.opaque_tail:
             return list(seq.items)
         if isinstance(seq, T) and seq.op == 'tuple':
@@ -1059,7 +1134,7 @@ class Engine:
     """Configuration of one analysis: oracle and hooks, then `paths(fn, env)`."""
 
     def __init__(self, P=None, oracle=None, on_call=None, on_attr=None, on_item=None, on_isinstance=None, on_iterate=None,
-                 resolve=None, globals_=None, max_paths=256, max_depth=4, max_unroll=3, inline_generators=False, trace_attrs=()):
+                 resolve=None, globals_=None, max_paths=256, max_depth=4, max_unroll=3, inline_generators=False, trace_attrs=(), mutable_dicts=True):
         self.P = P
         self.oracle = oracle
         self.on_call = on_call
@@ -1075,6 +1150,7 @@ class Engine:
         self.max_decisions = 40
         self.max_steps = 20000
         self.inline_generators = inline_generators
+        self.mutable_dicts = mutable_dicts
         self.trace_attrs = frozenset(trace_attrs)
         self.module = None
 
